@@ -55,12 +55,21 @@ package pub
 //@ [C07] ensures disabled_405: r.Method == "POST" && isASMedia(old(hdr)[r.Header]["Content-Type"]) && !b.enableFederatedProtocol ==> result0 && result1 == nil && status == 405 && appCalls == 0 && eff == 0
 //@ [C07] ensures unauthenticated_no_effect: !authed ==> eff == 0
 //@ [C07] ensures blocked_no_effect: !cleared ==> eff == 0
-//@ [C10] requires fresh_request: wrote == 0 && libWrote == 0 && bodyWrites == 0
+//@ [C10] requires fresh_request: wrote == 0 && libWrote == 0 && bodyWrites == 0 && !typeUnknown && !lacksId && !lastBlocked && !reqMissing
 //@ [C10] ensures not_handled: !result0 ==> wrote == 0 && result1 == nil
 //@ [C10] ensures error_unwritten: result0 && result1 != nil ==> libWrote == 0
 //@ [C10] ensures one_status: result0 && result1 == nil ==> wrote == 1
 //@ [C10] ensures disabled_405: r.Method == "POST" && isASMedia(old(hdr)[r.Header]["Content-Type"]) && !b.enableFederatedProtocol ==> result0 && result1 == nil && status == 405
-//@ modifies $db, authed, cleared, wrote, libWrote, status, bodyWrites, hdr, bufstr, H:net/url.URL.Host, H:net/url.URL.Scheme, A:Int, A:Iface
+//@ modifies $db, authed, cleared, typeUnknown, lacksId, lastBlocked, reqMissing, wrote, libWrote, status, bodyWrites, hdr, bufstr, H:net/url.URL.Host, H:net/url.URL.Scheme, A:Int, A:Iface
+//@ [C10] at call streams.ToType#1: ghost typeUnknown = isUnmatched($res1)
+//@ [C10] at call pub.Activity.GetJSONLDId#1: ghost lacksId = $res0 == nil || $res0.Get() == nil
+//@ [C10] at call pub.DelegateActor.PostInbox#1: ghost reqMissing = $res0 == pub.ErrObjectRequired || $res0 == pub.ErrTargetRequired
+//@ [C10] ensures unknown_type_400: typeUnknown ==> result0 && result1 == nil && status == 400
+//@ [C10] ensures no_usable_id_400: lacksId ==> result0 && result1 == nil && status == 400
+//@ [C10] ensures blocked_403: lastBlocked ==> result0 && result1 == nil && status == 403
+//@ [C10] ensures required_missing_400: reqMissing ==> result0 && result1 == nil && status == 400
+//@ [C10] ensures accepted_200: result0 && result1 == nil && libWrote == 1 && b.enableFederatedProtocol && !typeUnknown && !lacksId && !lastBlocked && !reqMissing ==> status == 200
+//@ [C10] ensures library_status: libWrote == 1 ==> status == 405 || status == 400 || status == 403 || status == 200
 
 //@ func (*pub.baseActor).PostInbox
 //@ [C11] requires b != nil && b.delegate != nil && w != nil && r != nil && r.URL != nil && r.Body != nil
@@ -71,11 +80,11 @@ package pub
 //@ [C07] requires fresh_request: !authed && !cleared && eff == 0 && appCalls == 0 && wrote == 0
 //@ [C07] ensures unauthenticated_no_effect: !authed ==> eff == 0
 //@ [C07] ensures blocked_no_effect: !cleared ==> eff == 0
-//@ [C10] requires fresh_request: wrote == 0 && libWrote == 0 && bodyWrites == 0
+//@ [C10] requires fresh_request: wrote == 0 && libWrote == 0 && bodyWrites == 0 && !typeUnknown && !lacksId && !lastBlocked && !reqMissing
 //@ [C10] ensures not_handled: !result0 ==> wrote == 0 && result1 == nil
 //@ [C10] ensures error_unwritten: result0 && result1 != nil ==> libWrote == 0
 //@ [C10] ensures one_status: result0 && result1 == nil ==> wrote == 1
-//@ modifies $db, authed, cleared, wrote, libWrote, status, bodyWrites, hdr, bufstr, H:net/url.URL.Host, H:net/url.URL.Scheme, A:Int, A:Iface
+//@ modifies $db, authed, cleared, typeUnknown, lacksId, lastBlocked, reqMissing, wrote, libWrote, status, bodyWrites, hdr, bufstr, H:net/url.URL.Host, H:net/url.URL.Scheme, A:Int, A:Iface
 
 //@ func (*pub.baseActor).PostOutboxScheme
 //@ [C11] requires b != nil && b.delegate != nil && w != nil && r != nil && r.URL != nil && r.Body != nil
@@ -87,12 +96,19 @@ package pub
 //@ [C07] ensures not_ap: !(r.Method == "POST" && isASMedia(old(hdr)[r.Header]["Content-Type"])) ==> !result0 && result1 == nil && eff == 0 && appCalls == 0 && wrote == 0
 //@ [C07] ensures disabled_405: r.Method == "POST" && isASMedia(old(hdr)[r.Header]["Content-Type"]) && !b.enableSocialProtocol ==> result0 && result1 == nil && status == 405 && appCalls == 0 && eff == 0
 //@ [C07] ensures unauthenticated_no_effect: !authed ==> eff == 0
-//@ [C10] requires fresh_request: wrote == 0 && libWrote == 0 && bodyWrites == 0
+//@ [C10] requires fresh_request: wrote == 0 && libWrote == 0 && bodyWrites == 0 && !typeUnknown && !lacksId && !lastBlocked && !reqMissing
 //@ [C10] ensures not_handled: !result0 ==> wrote == 0 && result1 == nil
 //@ [C10] ensures error_unwritten: result0 && result1 != nil ==> libWrote == 0
 //@ [C10] ensures one_status: result0 && result1 == nil ==> wrote == 1
 //@ [C10] ensures disabled_405: r.Method == "POST" && isASMedia(old(hdr)[r.Header]["Content-Type"]) && !b.enableSocialProtocol ==> result0 && result1 == nil && status == 405
-//@ modifies $db, authed, cleared, wrote, libWrote, status, bodyWrites, hdr, bufstr, H:net/url.URL.Host, H:net/url.URL.Scheme, A:Int, A:Iface
+//@ modifies $db, authed, cleared, typeUnknown, lacksId, lastBlocked, reqMissing, newId, wrote, libWrote, status, bodyWrites, hdr, bufstr, H:net/url.URL.Host, H:net/url.URL.Scheme, A:Int, A:Iface
+//@ [C10] at call streams.ToType#1: ghost typeUnknown = isUnmatched($res1)
+//@ [C10] at call (*pub.baseActor).deliver#1: ghost reqMissing = $res1 == pub.ErrObjectRequired || $res1 == pub.ErrTargetRequired
+//@ [C10] at call (*pub.baseActor).deliver#1: ghost newId = $res0.GetJSONLDId().Get()
+//@ [C10] ensures unknown_type_400: typeUnknown ==> result0 && result1 == nil && status == 400
+//@ [C10] ensures required_missing_400: reqMissing ==> result0 && result1 == nil && status == 400
+//@ [C10] ensures created_201: result0 && result1 == nil && libWrote == 1 && b.enableSocialProtocol && !typeUnknown && !reqMissing ==> status == 201 && hdr[whdr(w)]["Location"] == str(newId)
+//@ [C10] ensures library_status: libWrote == 1 ==> status == 405 || status == 400 || status == 201
 
 //@ func (*pub.baseActor).PostOutbox
 //@ [C11] requires b != nil && b.delegate != nil && w != nil && r != nil && r.URL != nil && r.Body != nil
@@ -102,11 +118,11 @@ package pub
 //@ [C08] ensures unlocked: held == emp
 //@ [C07] requires fresh_request: !authed && !cleared && eff == 0 && appCalls == 0 && wrote == 0
 //@ [C07] ensures unauthenticated_no_effect: !authed ==> eff == 0
-//@ [C10] requires fresh_request: wrote == 0 && libWrote == 0 && bodyWrites == 0
+//@ [C10] requires fresh_request: wrote == 0 && libWrote == 0 && bodyWrites == 0 && !typeUnknown && !lacksId && !lastBlocked && !reqMissing
 //@ [C10] ensures not_handled: !result0 ==> wrote == 0 && result1 == nil
 //@ [C10] ensures error_unwritten: result0 && result1 != nil ==> libWrote == 0
 //@ [C10] ensures one_status: result0 && result1 == nil ==> wrote == 1
-//@ modifies $db, authed, cleared, wrote, libWrote, status, bodyWrites, hdr, bufstr, H:net/url.URL.Host, H:net/url.URL.Scheme, A:Int, A:Iface
+//@ modifies $db, authed, cleared, typeUnknown, lacksId, lastBlocked, reqMissing, newId, wrote, libWrote, status, bodyWrites, hdr, bufstr, H:net/url.URL.Host, H:net/url.URL.Scheme, A:Int, A:Iface
 
 //@ func (*pub.baseActor).GetInbox
 //@ [C11] requires b != nil && b.delegate != nil && b.clock != nil && w != nil && r != nil
@@ -221,14 +237,16 @@ package pub
 
 //@ func (*pub.sideEffectActor).AuthorizePostInbox
 //@ [C11] requires a != nil && a.s2s != nil && w != nil && activity != nil
-//@ [C07] requires authed: authed
+//@ [C07] requires authed: authed && !cleared
 //@ [C07] ensures cleared_iff_authorized: cleared == (authorized && err == nil)
 //@ [C07] ensures no_effect: eff == old(eff)
 //@ [C10] requires nothing_written: wrote == 0 && libWrote == 0 && bodyWrites == 0
 //@ [C10] ensures authorized_unwritten: authorized ==> wrote == 0 && libWrote == 0 && err == nil
 //@ [C10] ensures error_unwritten: err != nil ==> wrote == 0 && libWrote == 0 && !authorized
 //@ [C10] ensures blocked_403: !authorized && err == nil ==> wrote == 1 && libWrote == 1 && status == 403 && bodyWrites == 0
-//@ modifies cleared, appCalls, wrote, libWrote, status, A:Int, A:Iface
+//@ modifies cleared, lastBlocked, appCalls, wrote, libWrote, status, A:Int, A:Iface
+//@ [C10] requires not_blocked_yet: !lastBlocked
+//@ [C10] ensures blocked_flag: lastBlocked == (!authorized && err == nil)
 
 //@ func (*pub.sideEffectActor).PostInbox
 //@ [C11] requires a != nil && a.db != nil && a.s2s != nil && a.common != nil && inboxIRI != nil && activity != nil
@@ -361,6 +379,7 @@ package pub
 //@ modifies $db
 //@ loop 1 [C09] invariant unlocked: held == emp
 //@ loop 1 [C08] invariant unlocked: held == emp
+//@ [C10] ensures object_required: old(a.GetActivityStreamsObject() == nil || a.GetActivityStreamsObject().Len() == 0) ==> result == pub.ErrObjectRequired && eff == old(eff)
 
 //@ func (pub.FederatingWrappedCallbacks).create$1
 //@ [C11] requires w.db != nil && w.inboxIRI != nil && iter != nil
@@ -381,6 +400,7 @@ package pub
 //@ modifies $db
 //@ loop 1 [C09] invariant unlocked: held == emp
 //@ loop 1 [C08] invariant unlocked: held == emp
+//@ [C10] ensures object_required: old(a.GetActivityStreamsObject() == nil || a.GetActivityStreamsObject().Len() == 0) ==> result == pub.ErrObjectRequired && eff == old(eff)
 
 //@ func (pub.FederatingWrappedCallbacks).update$1
 //@ [C11] requires w.db != nil && iter != nil
@@ -401,6 +421,7 @@ package pub
 //@ modifies $db
 //@ loop 1 [C09] invariant unlocked: held == emp
 //@ loop 1 [C08] invariant unlocked: held == emp
+//@ [C10] ensures object_required: old(a.GetActivityStreamsObject() == nil || a.GetActivityStreamsObject().Len() == 0) ==> result == pub.ErrObjectRequired && eff == old(eff)
 
 //@ func (pub.FederatingWrappedCallbacks).deleteFn$1
 //@ [C11] requires w.db != nil && iter != nil
@@ -420,6 +441,7 @@ package pub
 //@ [C07] requires authed: authed && cleared
 //@ modifies $db, A:Int, A:Iface
 //@ [C08] at call Database.Update#1: assert same_hold: held[srcKey[followers]] && srcEpoch[followers] == epoch[srcKey[followers]]
+//@ [C10] ensures object_required: old(a.GetActivityStreamsObject() == nil || a.GetActivityStreamsObject().Len() == 0) ==> result == pub.ErrObjectRequired && eff == old(eff)
 
 //@ func (pub.FederatingWrappedCallbacks).accept
 //@ [C11] requires w.db != nil && w.inboxIRI != nil && a != nil
@@ -461,6 +483,8 @@ package pub
 //@ [C08] ensures unlocked: held == emp
 //@ [C07] requires authed: authed && cleared
 //@ modifies $db
+//@ [C10] ensures object_required: old(a.GetActivityStreamsObject() == nil || a.GetActivityStreamsObject().Len() == 0) ==> result == pub.ErrObjectRequired && eff == old(eff)
+//@ [C10] ensures target_required: old(!(a.GetActivityStreamsObject() == nil || a.GetActivityStreamsObject().Len() == 0) && (a.GetActivityStreamsTarget() == nil || a.GetActivityStreamsTarget().Len() == 0)) ==> result == pub.ErrTargetRequired && eff == old(eff)
 
 //@ func (pub.FederatingWrappedCallbacks).remove
 //@ [C11] requires w.db != nil && w.inboxIRI != nil && a != nil
@@ -470,6 +494,8 @@ package pub
 //@ [C08] ensures unlocked: held == emp
 //@ [C07] requires authed: authed && cleared
 //@ modifies $db
+//@ [C10] ensures object_required: old(a.GetActivityStreamsObject() == nil || a.GetActivityStreamsObject().Len() == 0) ==> result == pub.ErrObjectRequired && eff == old(eff)
+//@ [C10] ensures target_required: old(!(a.GetActivityStreamsObject() == nil || a.GetActivityStreamsObject().Len() == 0) && (a.GetActivityStreamsTarget() == nil || a.GetActivityStreamsTarget().Len() == 0)) ==> result == pub.ErrTargetRequired && eff == old(eff)
 
 //@ func (pub.FederatingWrappedCallbacks).like
 //@ [C11] requires w.db != nil && w.inboxIRI != nil && a != nil
@@ -481,6 +507,7 @@ package pub
 //@ modifies $db
 //@ loop 1 [C09] invariant unlocked: held == emp
 //@ loop 1 [C08] invariant unlocked: held == emp
+//@ [C10] ensures object_required: old(a.GetActivityStreamsObject() == nil || a.GetActivityStreamsObject().Len() == 0) ==> result == pub.ErrObjectRequired && eff == old(eff)
 
 //@ func (pub.FederatingWrappedCallbacks).like$1
 //@ [C11] requires w.db != nil && iter != nil && id != nil
@@ -521,6 +548,7 @@ package pub
 //@ [C08] ensures unlocked: held == emp
 //@ [C07] requires authed: authed && cleared
 //@ modifies $db
+//@ [C10] ensures object_required: old(a.GetActivityStreamsObject() == nil || a.GetActivityStreamsObject().Len() == 0) ==> result == pub.ErrObjectRequired && eff == old(eff)
 
 //@ func (pub.FederatingWrappedCallbacks).block
 //@ [C11] requires w.db != nil && w.inboxIRI != nil && a != nil
@@ -530,6 +558,7 @@ package pub
 //@ [C08] ensures unlocked: held == emp
 //@ [C07] requires authed: authed && cleared
 //@ modifies $db
+//@ [C10] ensures object_required: old(a.GetActivityStreamsObject() == nil || a.GetActivityStreamsObject().Len() == 0) ==> result == pub.ErrObjectRequired && eff == old(eff)
 
 //@ func (pub.FederatingWrappedCallbacks).callbacks
 //@ modifies A:Int, A:Iface
@@ -545,6 +574,7 @@ package pub
 //@ modifies $db, C:Bool[w.undeliverable], A:Int, A:Iface, MD:String:Int, MV:String:Int
 //@ loop 9 [C09] invariant unlocked: held == emp
 //@ loop 9 [C08] invariant unlocked: held == emp
+//@ [C10] ensures object_required: old(a.GetActivityStreamsObject() == nil || a.GetActivityStreamsObject().Len() == 0) ==> result == pub.ErrObjectRequired && eff == old(eff)
 
 //@ func (pub.SocialWrappedCallbacks).create$1
 //@ [C11] requires w.db != nil && op != nil
@@ -565,6 +595,7 @@ package pub
 //@ modifies $db, C:Bool[w.undeliverable], A:Int, A:Iface
 //@ loop 2 [C09] invariant unlocked: held == emp
 //@ loop 2 [C08] invariant unlocked: held == emp
+//@ [C10] ensures object_required: old(a.GetActivityStreamsObject() == nil || a.GetActivityStreamsObject().Len() == 0) ==> result == pub.ErrObjectRequired && eff == old(eff)
 
 //@ func (pub.SocialWrappedCallbacks).update$1
 //@ [C11] requires w.db != nil && op != nil && loopId != nil
@@ -585,6 +616,7 @@ package pub
 //@ modifies $db, C:Bool[w.undeliverable], A:Int, A:Iface
 //@ loop 2 [C09] invariant unlocked: held == emp
 //@ loop 2 [C08] invariant unlocked: held == emp
+//@ [C10] ensures object_required: old(a.GetActivityStreamsObject() == nil || a.GetActivityStreamsObject().Len() == 0) ==> result == pub.ErrObjectRequired && eff == old(eff)
 
 //@ func (pub.SocialWrappedCallbacks).deleteFn$1
 //@ [C11] requires w.db != nil && w.clock != nil && loopId != nil
@@ -603,6 +635,7 @@ package pub
 //@ [C08] ensures unlocked: held == emp
 //@ [C07] requires authed: authed
 //@ modifies $db, C:Bool[w.undeliverable]
+//@ [C10] ensures object_required: old(a.GetActivityStreamsObject() == nil || a.GetActivityStreamsObject().Len() == 0) ==> result == pub.ErrObjectRequired && eff == old(eff)
 
 //@ func (pub.SocialWrappedCallbacks).add
 //@ [C11] requires w.db != nil && w.outboxIRI != nil && w.undeliverable != nil && a != nil
@@ -612,6 +645,8 @@ package pub
 //@ [C08] ensures unlocked: held == emp
 //@ [C07] requires authed: authed
 //@ modifies $db, C:Bool[w.undeliverable]
+//@ [C10] ensures object_required: old(a.GetActivityStreamsObject() == nil || a.GetActivityStreamsObject().Len() == 0) ==> result == pub.ErrObjectRequired && eff == old(eff)
+//@ [C10] ensures target_required: old(!(a.GetActivityStreamsObject() == nil || a.GetActivityStreamsObject().Len() == 0) && (a.GetActivityStreamsTarget() == nil || a.GetActivityStreamsTarget().Len() == 0)) ==> result == pub.ErrTargetRequired && eff == old(eff)
 
 //@ func (pub.SocialWrappedCallbacks).remove
 //@ [C11] requires w.db != nil && w.outboxIRI != nil && w.undeliverable != nil && a != nil
@@ -621,6 +656,8 @@ package pub
 //@ [C08] ensures unlocked: held == emp
 //@ [C07] requires authed: authed
 //@ modifies $db, C:Bool[w.undeliverable]
+//@ [C10] ensures object_required: old(a.GetActivityStreamsObject() == nil || a.GetActivityStreamsObject().Len() == 0) ==> result == pub.ErrObjectRequired && eff == old(eff)
+//@ [C10] ensures target_required: old(!(a.GetActivityStreamsObject() == nil || a.GetActivityStreamsObject().Len() == 0) && (a.GetActivityStreamsTarget() == nil || a.GetActivityStreamsTarget().Len() == 0)) ==> result == pub.ErrTargetRequired && eff == old(eff)
 
 //@ func (pub.SocialWrappedCallbacks).like
 //@ [C11] requires w.db != nil && w.outboxIRI != nil && w.undeliverable != nil && a != nil
@@ -633,6 +670,7 @@ package pub
 //@ [C08] at call Database.Update#1: assert same_hold: held[srcKey[liked]] && srcEpoch[liked] == epoch[srcKey[liked]]
 //@ loop 1 [C09] invariant holds_actor: held == emp[str(actorIRI) := true]
 //@ loop 1 [C08] invariant holds_actor: held == emp[str(actorIRI) := true] && srcKey[liked] == str(actorIRI) && srcEpoch[liked] == epoch[str(actorIRI)]
+//@ [C10] ensures object_required: old(a.GetActivityStreamsObject() == nil || a.GetActivityStreamsObject().Len() == 0) ==> result == pub.ErrObjectRequired && eff == old(eff)
 
 //@ func (pub.SocialWrappedCallbacks).undo
 //@ [C11] requires w.db != nil && w.outboxIRI != nil && w.undeliverable != nil && a != nil
@@ -642,6 +680,7 @@ package pub
 //@ [C08] ensures unlocked: held == emp
 //@ [C07] requires authed: authed
 //@ modifies $db, C:Bool[w.undeliverable]
+//@ [C10] ensures object_required: old(a.GetActivityStreamsObject() == nil || a.GetActivityStreamsObject().Len() == 0) ==> result == pub.ErrObjectRequired && eff == old(eff)
 
 //@ func (pub.SocialWrappedCallbacks).block
 //@ [C11] requires w.db != nil && w.outboxIRI != nil && w.undeliverable != nil && a != nil
@@ -651,6 +690,7 @@ package pub
 //@ [C08] ensures unlocked: held == emp
 //@ [C07] requires authed: authed
 //@ modifies $db, C:Bool[w.undeliverable]
+//@ [C10] ensures object_required: old(a.GetActivityStreamsObject() == nil || a.GetActivityStreamsObject().Len() == 0) ==> result == pub.ErrObjectRequired && eff == old(eff)
 
 //@ func (pub.SocialWrappedCallbacks).callbacks
 //@ modifies A:Int, A:Iface
@@ -798,6 +838,7 @@ package pub
 //@ [C10] requires fresh_request: wrote == 0 && libWrote == 0 && bodyWrites == 0
 //@ [C10] ensures not_handled: !isASRequest ==> wrote == 0 && err == nil
 //@ [C10] ensures error_unwritten: isASRequest && err != nil ==> libWrote == 0
-//@ [C10] ensures one_status: isASRequest && err == nil ==> wrote == 1 && (status == 200 || status == 410)
-//@ modifies $db, wrote, libWrote, status, bodyWrites, hdr, bufstr, H:net/url.URL.Host, H:net/url.URL.Scheme, A:Int, A:Iface
-
+//@ [C10] ensures one_status: isASRequest && err == nil ==> wrote == 1 && status == (tomb ? 410 : 200)
+//@ modifies $db, tomb, wrote, libWrote, status, bodyWrites, hdr, bufstr, H:net/url.URL.Host, H:net/url.URL.Scheme, A:Int, A:Iface
+//@ [C10] at call streams.IsOrExtendsActivityStreamsTombstone#1: ghost tomb = $res0
+//@ [C10] ensures not_found: isASRequest && err == pub.ErrNotFound ==> wrote == 0
